@@ -8,10 +8,23 @@ import (
 )
 
 func (r *Repo) Oldest(_ context.Context) (model.Transaction, error) {
-	it := r.storage.Iter()
-	if !it.Next() {
+	r.m.RLock()
+	defer r.m.RUnlock()
+
+	// Registration order is not begin order: the oldest transaction is the one
+	// with the smallest begin number.
+	var (
+		oldest model.Transaction
+		found  bool
+	)
+	for it := r.storage.Iter(); it.Next(); {
+		if tx := it.Val(); !found || tx.Seq.Before(oldest.Seq) {
+			oldest, found = tx, true
+		}
+	}
+	if !found {
 		return model.Transaction{}, fs_db.ErrTxNotFound
 	}
 
-	return it.Val(), nil
+	return oldest, nil
 }
